@@ -243,7 +243,136 @@ class CudaKernel(Contract):
         return r.replay_cone("cuda-text")
 
 
-CONTRACTS = [MeasureCpu, NumbaKernel, CudaKernel]
+class MatchSeq(kernels._Generic):
+    """flat_matches: m tuples (dist(j), src(j), tgt(j)); .sort() orders them ascending (by distance first)"""
+
+    def __init__(self, spec):
+        self.m = SV(z3.Int("n_matches"))
+        self.dist = z3.Function("m_dist", z3.IntSort(), z3.RealSort())
+        self.src = z3.Function("m_src", z3.IntSort(), z3.IntSort())
+        self.tgt = z3.Function("m_tgt", z3.IntSort(), z3.IntSort())
+        self.sorted = False
+        self.spec = spec
+
+    def sort(self, *a, **k):
+        if a or k:
+            raise sym.Unsupported("sort with a key")
+        self.sorted = True
+        i, j = z3.Ints("i!s j!s")
+        ctx().axiom("list.sort() of (dist, src, tgt) tuples: distances non-decreasing", z3.ForAll([i, j], z3.Implies(z3.And(i >= 0, i <= j, j < self.m.t), self.dist(i) <= self.dist(j))))
+
+    def __sym_len__(self):
+        return self.m
+
+    def __generic_for__(self, interp, st, env):
+        import ast
+        if not (isinstance(st.target, ast.Tuple) and len(st.target.elts) == 3):
+            raise sym.Unsupported("match loop target")
+        names = [e.id for e in st.target.elts]
+
+        def bind_at(e, k):
+            e.vars[names[0]] = SV(self.dist(k))
+            e.vars[names[1]] = SV(self.src(k))
+            e.vars[names[2]] = SV(self.tgt(k))
+        kernels.run_invariant_loop(interp, st, env, self.m, bind_at, self.spec, label="assign")
+
+
+class GreedySpec(kernels.InvSpec):
+    """invariant of the greedy assignment loop of process_matches_cpu2cpu after k processed matches"""
+    state = {"thickness_results": "Real", "valid_mask": "Bool", "point_pairs": "Int", "source_assigned": "Bool", "target_assigned": "Bool"}
+    ghosts = {"at": "Int", "own": "Int"}  # at[s]: the match that assigned source s; own[t]: the source that owns target t
+
+    def __init__(self, seq_holder):
+        self.h = seq_holder
+
+    def inv(self, k, S, G):
+        q = self.h["seq"]
+        s, t, j = z3.Ints("s!q t!q j!q")
+        th, va, pp, sa, ta, at, own = S["thickness_results"], S["valid_mask"], S["point_pairs"], S["source_assigned"], S["target_assigned"], G["at"], G["own"]
+        return [
+            ("valid_iff_source_assigned", z3.ForAll([s], va(s) == sa(s))),
+            ("assigned_source_records_its_match", z3.ForAll([s], z3.Implies(va(s), z3.And(at(s) >= 0, at(s) < k, q.src(at(s)) == s, q.tgt(at(s)) == pp(s), th(s) == q.dist(at(s)))))),
+            ("unassigned_source_has_zero_thickness", z3.ForAll([s], z3.Implies(z3.Not(va(s)), th(s) == 0))),
+            ("taken_target_has_an_owner", z3.ForAll([t], z3.Implies(ta(t), z3.And(va(own(t)), pp(own(t)) == t)))),
+            ("assigned_source_owns_its_target", z3.ForAll([s], z3.Implies(va(s), z3.And(ta(pp(s)), own(pp(s)) == s)))),
+            ("processed_match_is_blocked_by_an_earlier_or_same_assignment",
+             z3.ForAll([j], z3.Implies(z3.And(j >= 0, j < k), z3.Or(z3.And(sa(q.src(j)), at(q.src(j)) <= j), z3.And(ta(q.tgt(j)), at(own(q.tgt(j))) <= j))))),
+        ]
+
+    def ghost_step(self, k, S0, S1, G0):
+        q = self.h["seq"]
+        newly = z3.And(S1["valid_mask"](q.src(k)), z3.Not(S0["valid_mask"](q.src(k))))
+        return {"at": (lambda i, f=G0["at"]: z3.If(z3.And(newly, i == q.src(k)), k, f(i))),
+                "own": (lambda i, f=G0["own"]: z3.If(z3.And(newly, i == q.tgt(k)), q.src(k), f(i)))}
+
+
+class ProcessMatches(Contract):
+    """greedy one-to-one assignment by increasing distance (loop invariant supplied above)"""
+    prop = "C20"
+    module = "memthick"
+    qual = "process_matches_cpu2cpu"
+
+    def bind(self, cx, cfg):
+        holder = {}
+        spec = GreedySpec(holder)
+        seq = MatchSeq(spec)
+        holder["seq"] = seq
+        n = SV(z3.Int("n_points"))
+        voxel = SV(z3.Real("voxel_size"))
+        cx.assume(z3.And(n.t >= 0, voxel.t > 0, seq.m.t >= 0))
+        j = z3.Int("j!r")
+        cx.assume(z3.ForAll([j], z3.Implies(z3.And(j >= 0, j < seq.m.t), z3.And(seq.src(j) >= 0, seq.src(j) < n.t, seq.tgt(j) >= 0, seq.tgt(j) < n.t, seq.dist(j) > 0))))  # requires: indices in range, positive distances
+        base = common.base_globals()["np"]
+
+        class NPZ:
+            float32, bool_, int32 = "float32", "bool_", "int32"
+
+            def __getattr__(self, k):
+                return getattr(base, k)
+
+            @staticmethod
+            def zeros(shape, dtype=None):
+                sort = {"float32": "Real", "bool_": "Bool", "int32": "Int"}.get(dtype, "Real")
+                return kernels.FnArr.const(0, shape, sort, f"zeros_{sort}")
+
+        def mkset(*a):
+            if a:
+                return set(*a)
+            return kernels.FnArr.const(False, None, "Bool", "set")
+
+        it = _interp({"np": NPZ(), "set": mkset})
+        f = it.function("process_matches_cpu2cpu")
+        return (lambda: f(seq, n, voxel)), {"seq": seq, "n": n, "voxel": voxel}
+
+    def post(self, cx, cfg, inp, res):
+        q, vox = inp["seq"], inp["voxel"].t
+        ok = isinstance(res, tuple) and len(res) == 3 and all(isinstance(x, kernels.FnArr) for x in res)
+        cl = [("returns_thickness_valid_pairs", z3.BoolVal(bool(ok))), ("matches_were_sorted_by_distance", z3.BoolVal(q.sorted))]
+        ex = getattr(cx, "loop_exit", {}).get("assign")
+        if not ok or ex is None:
+            return cl
+        th, va, pp = res[0].f, res[1].f, res[2].f
+        at, ta = ex["G"]["at"], ex["S"]["target_assigned"]
+        s, s2, j = z3.Ints("s!p s2!p j!p")
+        m = q.m.t
+        cl += [
+            ("no_target_used_twice", z3.ForAll([s, s2], z3.Implies(z3.And(va(s), va(s2), s != s2), pp(s) != pp(s2))), ()),
+            ("pair_is_one_of_the_given_matches_and_thickness_is_distance_times_voxel",
+             z3.ForAll([s], z3.Implies(va(s), z3.And(at(s) >= 0, at(s) < m, q.src(at(s)) == s, q.tgt(at(s)) == pp(s), th(s) == q.dist(at(s)) * vox))), ()),
+            ("unpaired_points_carry_no_thickness", z3.ForAll([s], z3.Implies(z3.Not(va(s)), th(s) == 0)), ()),
+            ("no_admissible_pair_of_two_unmatched_points_left", z3.ForAll([j], z3.Implies(z3.And(j >= 0, j < m), z3.Or(va(q.src(j)), ta(q.tgt(j))))), ()),
+            ("taken_targets_are_exactly_the_paired_ones", z3.ForAll([j], z3.Implies(z3.And(j >= 0, j < m, ta(q.tgt(j))), z3.Exists([s], z3.And(va(s), pp(s) == q.tgt(j))))), ()),
+            ("no_matched_source_has_a_closer_admissible_unmatched_target",
+             z3.ForAll([j], z3.Implies(z3.And(j >= 0, j < m, va(q.src(j)), q.dist(j) * vox < th(q.src(j))), ta(q.tgt(j)))), ()),
+        ]
+        return cl
+
+    def replay(self, clause, model, cfg):
+        from rtc import c20 as r
+        return r.replay_greedy()
+
+
+CONTRACTS = [MeasureCpu, NumbaKernel, CudaKernel, ProcessMatches]
 LEVEL = "proof"
 EXPLANATION = ("Accept-site obligations on the real ASTs of the three candidate kernels (generic source point x generic candidate): whatever is appended/stored is an admissible "
                "pair (Euclidean distance, within max thickness, ahead of the source along its unit normal, inside the cone d.n >= |d| cos(max_angle)), of the right surfaces for the "
